@@ -13,7 +13,7 @@ import (
 func init() { Registry["C18"] = checkC18 }
 
 func checkC18(p *core.Prog, r *core.Report) {
-	r.Explanation = "Decides structural necessary conditions of disconnect semantics: (R1) Server.handle reaches serverProtocol.Close() on every path after a successful protocol detection (the failing path closes the stream); (R2) every Close of a connection protocol is a test-and-set under its mutex that takes ownership of the will queue (copied to a local, field cleared) before the mutex is released, and drains the local copy with every queued command handed to the engine entry regardless of earlier results; (R3) will registration never executes: the registration arms push to the will queue, rewrite the command type to LOCK/UNLOCK before the push (otherwise Close would only re-register it), and call no engine function; (R4) registration uses Push (tail) and the drain uses Pop (head) of the same queue; (R5) proxies are repointed to the default protocol inside the critical section that sets closed, and AddProxy reports success only after tracking the proxy (and refuses when closed); (R6) replies are re-routed by the connection's own client id, never to the closing connection itself, and Close removes the client-id entry only if it still maps to this connection. (R7) the code that registers a will (pushes the command object onto the connection's will queue) does not return that object to the command pool on the same path. (R8) the will drain dispatches through the closing protocol object itself, and a loop repointing every tracked proxy dominates the truncation of the proxy list. (R9) the text protocol sends a reply on lockWaiter only after testing the connection not closed, so the will drain cannot block on a channel nobody reads. (R10) a lock command handed to the local engine is not freed by the caller. (R11) a re-INIT overwrites the proxy's client id only after the previous id's table entry has been removed. (R12) the proxy re-routes through the client table only for an announced (non-zero) client id (a real defect was repaired). NOT decided: exactly-once when a close races the drain on a follower whose leader is unreachable, leaks of queued requests, delivery after reconnect."
+	r.Explanation = "Decides structural necessary conditions of disconnect semantics: (R1) Server.handle reaches serverProtocol.Close() on every path after a successful protocol detection (the failing path closes the stream); (R2) every Close of a connection protocol is a test-and-set under its mutex that takes ownership of the will queue (copied to a local, field cleared) before the mutex is released, and drains the local copy with every queued command handed to the engine entry regardless of earlier results; (R3) will registration never executes: the registration arms push to the will queue, rewrite the command type to LOCK/UNLOCK before the push (otherwise Close would only re-register it), and call no engine function; (R4) registration uses Push (tail) and the drain uses Pop (head) of the same queue; (R5) proxies are repointed to the default protocol inside the critical section that sets closed, and AddProxy reports success only after tracking the proxy (and refuses when closed); (R6) replies are re-routed by the connection's own client id, never to the closing connection itself, and Close removes the client-id entry only if it still maps to this connection. (R7) the code that registers a will (pushes the command object onto the connection's will queue) does not return that object to the command pool on the same path. (R8) the will drain dispatches through the closing protocol object itself, and a loop repointing every tracked proxy dominates the truncation of the proxy list. (R9) the text protocol sends a reply on lockWaiter only after testing the connection not closed, so the will drain cannot block on a channel nobody reads. (R10) a lock command handed to the local engine is not freed by the caller. (R11) a re-INIT overwrites the proxy's client id only after the previous id's table entry has been removed. (R12) the proxy re-routes through the client table only for an announced (non-zero) client id (a real defect was repaired). (R13) the closed flag of a server protocol object is set only inside its own Close method (two ADMIN branches mark the nested text protocol closed from outside: known findings). NOT decided: exactly-once when a close races the drain on a follower whose leader is unreachable, leaks of queued requests, delivery after reconnect."
 	r.Assumptions = []string{"Go type checker and go/ssa are correct for /repo"}
 	c18R1(p, r)
 	c18R2(p, r)
@@ -25,6 +25,7 @@ func checkC18(p *core.Prog, r *core.Report) {
 	c18R10(p, r)
 	c18R11(p, r)
 	c18R12(p, r)
+	c18R13(p, r)
 	c18R5(p, r)
 }
 
@@ -1144,4 +1145,53 @@ func c11AccessesClientTable(fn *ssa.Function) bool {
 		}
 	}
 	return false
+}
+
+// c18R13: Close is where a connection's wills are executed, its session and
+// proxies released. Marking a protocol object closed from outside (setting its
+// closed flag without calling its Close) skips all of that: whatever wills the
+// object holds are acknowledged and then silently lost. Who-may-write: the
+// closed flag of a server protocol object is set to true only by that
+// object's own Close method.
+func c18R13(p *core.Prog, r *core.Report) {
+	const rule = "C18/R13"
+	r.Rule(rule, "the closed flag of a server protocol object is set only inside that object's own Close method (a protocol marked closed from outside never runs its wills)", 4)
+	n := 0
+	for _, fn := range p.FuncsIn("server") {
+		if fn.Blocks == nil {
+			continue
+		}
+		ord := 0
+		for _, b := range fn.Blocks {
+			for _, ins := range b.Instrs {
+				st, ok := ins.(*ssa.Store)
+				if !ok {
+					continue
+				}
+				fa, ok := st.Addr.(*ssa.FieldAddr)
+				if !ok {
+					continue
+				}
+				k := core.FieldKeyOf(fa.X.Type(), fa.Field)
+				if k.Field != "closed" || !strings.HasSuffix(k.Type, "ServerProtocol") {
+					continue
+				}
+				if c, ok := st.Val.(*ssa.Const); !ok || c.Value == nil || c.Value.ExactString() != "true" {
+					continue
+				}
+				n++
+				own := fn.Name() == "Close" && len(fn.Params) > 0 && fa.X == ssa.Value(fn.Params[0])
+				if own {
+					r.Hold(rule, core.FuncName(fn)+": closed set by the object's own Close", p.InstrPos(ins), "")
+					continue
+				}
+				ord++
+				key := fmt.Sprintf("%s: %s marked closed from outside#%d", core.FuncName(fn), k.Type, ord)
+				r.Violate(rule, key, p.InstrPos(ins), "a "+k.Type+" is marked closed without its Close being called: its will queue is never drained (a will registered over the nested text protocol of an ADMIN session is acknowledged with +OK and never runs), its session and proxy are never released", nil)
+			}
+		}
+	}
+	if n == 0 {
+		r.Fail("C18/R13: no store to a protocol's closed flag found")
+	}
 }
